@@ -181,7 +181,8 @@ Target(c) == c.d
 
 \* a duplicate is independent of its original: an action on d changes no other dictionary
 DupIndependent ==
-    [][\A x \in Dicts : x # Target(last') => dict'[x] = dict[x]]_uvars
+    [][last'.op # "reset" =>   \* (Reset: a new execution in a trace file)
+         \A x \in Dicts : x # Target(last') => dict'[x] = dict[x]]_uvars
 
 \* looking up returns the value last stored under the key (by construction
 \* here; MCUdict checks it against an independent write-log formulation)
